@@ -9,14 +9,23 @@ import (
 // A lone "!" or a doubled "! !": bash accepts them, dash and the parser do
 // not; the repository lists them as confirm-flipped (parser_test.go: "!",
 // "! !", "! ! foo").
-var loneBang = regexp.MustCompile(`(^|[\s;&|(){}])!\s*($|[;&|)}\n]|!\s|(then|do|fi|done|esac|else|elif|in)\b)`)
+var loneBang = regexp.MustCompile(`(^|[\s;&|(){}])!\s*($|[;&|)}\n#]|!\s|(then|do|fi|done|esac|else|elif|in)\b)`)
+
+// "for" followed by something that is not a plain name: bash -n defers the
+// check to run time ("not a valid identifier"), dash rejects quoted or
+// numeric names at parse time, the parser has rules of its own. Whether a
+// word is a valid loop variable is not part of the shared core grammar.
+var forBadName = regexp.MustCompile(`(^|[\s;&|(){}])for\s+([^A-Za-z_\s]|[A-Za-z_][A-Za-z0-9_]*[^A-Za-z0-9_\s;])`)
 
 // excluded returns the id of an exclusion: either one of the intentional
-// differences the repository lists as confirm-flipped (prefix "documented:")
-// or the class of a known finding.
+// differences the repository lists as confirm-flipped or that lie outside the
+// core grammar (prefix "documented:"), or the class of a known finding.
 func excluded(c Case, src string) string {
 	if loneBang.MatchString(src) {
 		return "documented:lone-bang"
+	}
+	if forBadName.MatchString(src) {
+		return "documented:for-variable-name"
 	}
 	for _, cl := range classes {
 		if vh.Excluded(cl.id) && cl.re.MatchString(src) {
@@ -31,4 +40,12 @@ type class struct {
 	re *regexp.Regexp
 }
 
-var classes = []class{}
+var classes = []class{
+	// f() followed by anything but a compound command: bash rejects a
+	// simple command as function body, the parser accepts it in Bash mode.
+	{"C12-bash-funcdecl-simple-body", regexp.MustCompile(`\(\)\s*([^\s{(]|\n)`)},
+	// a reserved word or "!" right after a redirection is an ordinary word
+	// for bash and dash (">f then" runs "then"; "done >f do" is an error);
+	// the parser decides by position in the statement instead.
+	{"C12-reserved-word-after-redirect", regexp.MustCompile(`[0-9]*(>>|>&|<&|>|<)[ \t]*[^\s;&|()]+[ \t]+(!|if|then|elif|else|fi|while|until|do|done|for|in|case|esac|\{|\})([\s;&|()]|$)`)},
+}
